@@ -189,7 +189,7 @@ where
     o.check(*d == before, "query-mutated-digraph", || "digraph != its pre-query clone".into());
 }
 
-fn check_weighted<W: Copy + PartialEq + std::fmt::Debug>(
+fn check_weighted<W: Copy + Default + Ord + std::hash::Hash + std::fmt::Debug + Send + Sync + 'static>(
     d: &AdjacencyListWeighted<W>,
     m: &Model,
     o: &mut CaseOut,
